@@ -29,6 +29,8 @@ pub struct C20;
 
 const VOCAB: &[&str] = &[
     "the", "cat", "Cat", "a", "unit-test", "it's", "fish.", "(fish)", "42", "x1", "über", "ﬁsh", "中文", "e\u{301}t", "a_b", "don't", "cat,", "!?",
+    // characters that a text format for save/load could mistake for syntax
+    "#tag", "c#", "##", ";x", "//", "\"q\"", "a:b", "%",
 ];
 const PLAIN: &[&str] = &["the", "cat", "a", "fish", "bat", "cab", "at", "th"];
 const ASCII_PUNCT: &str = "!\"#%&'()*,-./:;?@[\\]_{}";
